@@ -20,11 +20,12 @@ import SpVerif.Drive.History
 import SpVerif.Drive.ConfigLoop
 import SpVerif.Drive.Subgroups
 import SpVerif.Drive.Help
+import SpVerif.Drive.BoolFlagE2E
 open Lean SpVerif.Drive
 
 /-- every op of every per-property driver module: add `++ <module>Ops` here -/
 def allOps : List (String × (Json → R Json)) :=
-  namingOps ++ conflictsOps ++ replaceOps ++ docScanOps ++ engineOps ++ callablesOps ++ fieldsOps ++ subclassOps ++ serialOps ++ defaultsOps ++ annotOps ++ mergeOps ++ layersOps ++ postOps ++ historyOps ++ configLoopOps ++ subgroupsOps ++ helpOps
+  namingOps ++ conflictsOps ++ replaceOps ++ docScanOps ++ engineOps ++ callablesOps ++ fieldsOps ++ subclassOps ++ serialOps ++ defaultsOps ++ annotOps ++ mergeOps ++ layersOps ++ postOps ++ historyOps ++ configLoopOps ++ subgroupsOps ++ helpOps ++ boolE2EOps
 
 def dispatch (op : String) (c : Json) : R Json :=
   match allOps.lookup op with
